@@ -41,7 +41,7 @@ func (r *Run) ParallelFor(n int, f func(i int)) int64 {
 				if i >= n {
 					return
 				}
-				if i&63 == 0 && r.OutOfTime() {
+				if r.OutOfTime() {
 					return
 				}
 				r.guarded(i, f)
